@@ -59,6 +59,11 @@ struct ObsState {
     last_pruned: Option<BTreeSet<u64>>,
     /// highest head the syncer was told (head request answer / header-sub delivery)
     max_told: u64,
+    /// highest head the syncer has certainly taken notice of (head-request answers, the head
+    /// of a header-sub initialisation, gossip delivered after the last fault, and whatever its
+    /// own batches and header-sub insertions show); a gossip message handed over just before a
+    /// disconnection may be dropped unread, so `max_told` is only an upper bound
+    sure_head: u64,
     /// current batch announced by FetchingHeadersStarted
     batch: Option<(u64, u64)>,
     /// every batch announced so far (a request of a cancelled session may still be in flight)
@@ -84,6 +89,12 @@ impl Obs {
         st.max_told = st.max_told.max(h);
     }
 
+    fn sure(&self, h: u64) {
+        let mut st = self.st.lock().unwrap();
+        st.max_told = st.max_told.max(h);
+        st.sure_head = st.sure_head.max(h);
+    }
+
     /// Drain node events; called before every store call and by the harness loop, so that an
     /// event is always judged against the reads that preceded its emission.
     fn drain_events(&self) {
@@ -104,6 +115,10 @@ impl Obs {
         match ev {
             NodeEvent::FetchingHeadersStarted { from_height, to_height } => {
                 self.ctx.ev("ev.fetch_started", from_height, to_height);
+                {
+                    let mut st = self.st.lock().unwrap();
+                    st.sure_head = st.sure_head.max(to_height);
+                }
                 self.check_batch(from_height, to_height, at_ns);
             }
             NodeEvent::FetchingHeadersFinished { from_height, to_height, .. } => {
@@ -121,6 +136,10 @@ impl Obs {
             }
             NodeEvent::AddedHeaderFromHeaderSub { height } => {
                 self.ctx.ev("ev.added_from_header_sub", height, 0);
+                {
+                    let mut st = self.st.lock().unwrap();
+                    st.sure_head = st.sure_head.max(height);
+                }
                 self.ctx.probe("header_added_from_header_sub");
             }
             _ => {}
@@ -560,8 +579,9 @@ impl Net {
                 .map(|(h, _)| *h)
                 .unwrap_or_else(|| *counts.keys().next_back().unwrap());
             ctx.ev("net.head", best, nh);
-            self.obs.told(best);
-            let _ = respond_to.send(Ok(vec![self.chain.get(best).clone()]));
+            if respond_to.send(Ok(vec![self.chain.get(best).clone()])).is_ok() {
+                self.obs.sure(best);
+            }
             return;
         }
     }
@@ -649,6 +669,7 @@ async fn run_sync(ctx: &Arc<RunCtx>, prune_any: bool) {
             last_stored: None,
             last_pruned: None,
             max_told: 0,
+            sure_head: 0,
             batch: None,
             announced: Vec::new(),
             batches: 0,
@@ -797,6 +818,7 @@ async fn run_sync(ctx: &Arc<RunCtx>, prune_any: bool) {
                     }
                     P2pCommand::InitHeaderSub { head, channel } => {
                         ctx.ev("cmd.init_header_sub", head.height(), 0);
+                        obs.sure(head.height());
                         if initial_head.is_none() {
                             initial_head = Some(head.height());
                         } else {
@@ -858,7 +880,8 @@ async fn run_sync(ctx: &Arc<RunCtx>, prune_any: bool) {
                         // like the real worker: never block on the syncer; a full channel
                         // loses the announcement
                         if ch.try_send(decoded).is_ok() {
-                            obs.told(h);
+                            // after the last fault nothing can make the syncer drop it unread
+                            if faults_on { obs.told(h) } else { obs.sure(h) }
                         } else {
                             ctx.probe("header_sub_channel_full");
                         }
@@ -974,7 +997,7 @@ async fn run_sync(ctx: &Arc<RunCtx>, prune_any: bool) {
         let nh = net.network_head();
         // heads younger than two block times may still be in flight
         // ... and the node can only know about heads it was told about
-        let settled_head = nh.saturating_sub(2).min(obs.st.lock().unwrap().max_told);
+        let settled_head = nh.saturating_sub(2).min(obs.st.lock().unwrap().sure_head);
         let stored = inner.get_stored_header_ranges().await.map(|r| ranges_to_set(&r)).unwrap_or_default();
         let pruned = inner.get_pruned_ranges().await.map(|r| ranges_to_set(&r)).unwrap_or_default();
         ctx.oracle("C38.converges");
